@@ -585,7 +585,9 @@ pub fn explore<Sc: Scenario>(sc: &Sc, max_bound: usize, horizon: usize, budget_s
             if rep.samples.len() < 6 && (st.schedules == 1 || st.schedules == 7 || st.schedules == 40) {
                 rep.sample(serde_json::json!({"scenario": sc.name(), "schedule": r.decisions.iter().map(|d| d.chosen).collect::<Vec<_>>(), "trace": r.trace, "preemptions": r.preemptions}));
             }
-            if r.decisions.iter().any(|d| d.n > 1) {
+            // non-trivial = the schedule preempts a runnable thread at least once (it is not one of the
+            // run-to-completion orders); schedules are distinct by construction
+            if r.preemptions >= 1 {
                 rep.nontrivial += 1;
             }
             if !r.violations.is_empty() {
